@@ -528,10 +528,35 @@ func ruleR04d(c *Check) {
 	}
 	chans := map[*ssa.MakeChan]*chanInfo{}
 	var order []*ssa.MakeChan
+	sendLit := map[ssa.Instruction]*ssa.Function{} // the joined goroutine a send runs on
+	type scanItem struct{ fn, lit *ssa.Function }
+	var scan []scanItem
 	for _, fn := range c.P.Funcs {
 		if fn.Parent() == nil || !joined(fn) {
 			continue
 		}
+		scan = append(scan, scanItem{fn, fn})
+		// helpers the goroutine calls synchronously (a wrapped non-blocking send, say)
+		seenH := map[*ssa.Function]bool{fn: true}
+		work := []*ssa.Function{fn}
+		for d := 0; d < 2; d++ {
+			var next []*ssa.Function
+			for _, f := range work {
+				for _, s := range engine.SitesIn(f) {
+					if call, ok := s.(*ssa.Call); ok {
+						if h := call.Call.StaticCallee(); h != nil && len(h.Blocks) > 0 && !seenH[h] {
+							seenH[h] = true
+							scan = append(scan, scanItem{h, fn})
+							next = append(next, h)
+						}
+					}
+				}
+			}
+			work = next
+		}
+	}
+	for _, it := range scan {
+		fn := it.fn
 		for _, b := range fn.Blocks {
 			for _, in := range b.Instrs {
 				var ch ssa.Value
@@ -562,6 +587,7 @@ func ruleR04d(c *Check) {
 							order = append(order, mk)
 						}
 						chans[mk].sends = append(chans[mk].sends, in)
+						sendLit[in] = it.lit
 					}
 				}
 			}
@@ -601,7 +627,7 @@ func ruleR04d(c *Check) {
 		}
 		bad := ""
 		for _, s := range ci.sends {
-			lit := s.Parent()
+			lit := sendLit[s]
 			// the go statement launching lit, and the loop it sits in
 			var spawn ssa.Instruction
 			for _, cs := range c.G.CallersOf(lit) {
